@@ -74,7 +74,21 @@ pub fn all_cfgs(_quick: bool) -> Vec<Cfg> {
                         for o in 0..8u8 {
                             for invert in [false, true] {
                                 for refresh in 0..4u8 {
-                                    v.push(Cfg { model: ModelId::Builtin(i as u8), tr, win, orient: o, bgr, invert, refresh, rst });
+                                    // builder call order (options before / after `.reset_pin()`), interface lent as
+                                    // `&mut DI`, and data pins that start high are spread over the option product so
+                                    // that every model x transport x reset setting meets each of them many times
+                                    let k = o as u32 + refresh as u32 * 8 + bgr as u32 * 32 + invert as u32 * 64;
+                                    let mut flags = 0u8;
+                                    if k % 2 == 1 {
+                                        flags |= F_OPTS_FIRST;
+                                    }
+                                    if (k / 2) % 3 == 1 {
+                                        flags |= F_BORROWED;
+                                    }
+                                    if (k / 5) % 2 == 1 {
+                                        flags |= F_DATA_HIGH;
+                                    }
+                                    v.push(Cfg { model: ModelId::Builtin(i as u8), tr, win, orient: o, bgr, invert, refresh, rst, flags });
                                 }
                             }
                         }
@@ -179,7 +193,7 @@ pub fn check_c17(r: &InitRun) -> Option<(String, String)> {
         // phase machine: expect RST low, delays summing to >= 10 us, RST high; no bus event before
         let mut phase = 0;
         let mut low_ns = 0u64;
-        for (i, e) in b.evs.iter().enumerate() {
+        for (i, e) in b.evs.iter().enumerate().skip(r.ev_start) {
             match (phase, e) {
                 (0, Ev::Pin { pin: PIN_RST, high: false, ok: true, .. }) => phase = 1,
                 (0, _) => return mk("first-event", format!("first event is {e:?}, expected the reset pin driven low")),
@@ -213,7 +227,7 @@ pub fn check_c17(r: &InitRun) -> Option<(String, String)> {
         if soft_resets != 1 {
             return mk("soft-reset-count", format!("software reset sent {soft_resets} times"));
         }
-        if b.evs.iter().any(|e| matches!(e, Ev::Pin { pin: PIN_RST, .. })) {
+        if b.evs.iter().skip(r.ev_start).any(|e| matches!(e, Ev::Pin { pin: PIN_RST, .. })) {
             return mk("rst-touched", "reset pin operations without a configured reset pin".into());
         }
     }
